@@ -21,6 +21,27 @@
 #include "vh.h"
 #include "ksi_exec.h"
 
+#ifdef KX_FAILPOINTS
+/* ---- allocation failpoints: every allocation of the SDK goes through these three (base.o is linked with malloc/calloc/free renamed) */
+#define FP_MAX 1048576
+#include <execinfo.h>
+#define FP_BT 7
+static void *fp_live[FP_MAX]; static void *fp_bt[FP_MAX][FP_BT]; static unsigned long fp_idx[FP_MAX];
+static unsigned long fp_count, fp_nlive, fp_failed; static unsigned long fp_arm[8]; static int fp_narm;
+static size_t fp_slot(void *p) { size_t i = ((size_t)p >> 4) * 0x9E3779B97F4A7C15ull >> 44 & (FP_MAX - 1); while (fp_live[i] && fp_live[i] != p) i = (i + 1) & (FP_MAX - 1); return i; }
+static int fp_should_fail(void) { int i; fp_count++; for (i = 0; i < fp_narm; i++) if (fp_arm[i] == fp_count) { fp_failed++; return 1; } return 0; }
+static void fp_add(void *p) { if (p) { size_t i = fp_slot(p); void *bt[FP_BT + 2]; int n = backtrace(bt, FP_BT + 2), k; fp_live[i] = p; fp_idx[i] = fp_count; fp_nlive++;
+	for (k = 0; k < FP_BT; k++) fp_bt[i][k] = k + 2 < n ? bt[k + 2] : NULL; } }
+void *kxsdk_malloc(size_t n) { void *p; if (fp_should_fail()) return NULL; p = malloc(n); fp_add(p); return p; }
+void *kxsdk_calloc(size_t a, size_t b) { void *p; if (fp_should_fail()) return NULL; p = calloc(a, b); fp_add(p); return p; }
+void kxsdk_free(void *p) {
+	if (p) { size_t i = fp_slot(p); if (fp_live[i] == p) { size_t j = i; fp_nlive--; fp_live[i] = NULL;
+		/* re-insert the cluster that follows (open addressing deletion) */
+		for (j = (i + 1) & (FP_MAX - 1); fp_live[j]; j = (j + 1) & (FP_MAX - 1)) { void *q = fp_live[j]; void *bt[FP_BT]; unsigned long ix = fp_idx[j]; size_t k; memcpy(bt, fp_bt[j], sizeof bt); fp_live[j] = NULL; k = fp_slot(q); fp_live[k] = q; memcpy(fp_bt[k], bt, sizeof bt); fp_idx[k] = ix; } } }
+	free(p);
+}
+#endif
+
 #define NSLOT 64
 static KSI_CTX *ctxs[NSLOT];
 static KSI_Signature *sigs[NSLOT];
@@ -109,7 +130,8 @@ static int cmd_verify(void) {
 	if (doc) { size_t n; unsigned char *b = kx_hexarg(doc, &n); rc = KSI_DataHash_fromImprint(c, b, n, &dh); vh_exact_free(b, n); if (rc != KSI_OK) { kx_out(" stage=dochash"); return rc; } }
 	if (pub) { rc = KSI_PublicationData_fromBase32(c, pub, &pd); if (rc != KSI_OK) { KSI_DataHash_free(dh); kx_out(" stage=pubstring"); return rc; } }
 	if (!strcmp(api, "verifier")) {
-		KSI_VerificationContext_init(&vc, c);
+		rc = KSI_VerificationContext_init(&vc, c);
+		if (rc != KSI_OK) { KSI_DataHash_free(dh); KSI_PublicationData_free(pd); kx_out(" stage=ctxinit"); return rc; }
 		vc.signature = s; vc.documentHash = dh; vc.docAggrLevel = kvu("lvl", 0); vc.userPublication = pd; vc.extendingAllowed = (int)kvl("ext", 0);
 		if (kv("pubfile")) vc.userPublicationsFile = pubfiles[kvl("pubfile", 0)];
 		rc = KSI_SignatureVerifier_verify(pol, &vc, &res);
@@ -205,6 +227,15 @@ static int dispatch(void) {
 		if (owned) KSI_PublicationRecord_free(pr);
 		return rc; }
 	if (!strcmp(c0, "pubfilefree")) { int i = atoi(tok[1]); KSI_PublicationsFile_free(pubfiles[i]); pubfiles[i] = NULL; return 0; }
+#ifdef KX_FAILPOINTS
+	if (!strcmp(c0, "fp")) { /* fp arm <n>[,<m>..] | fp off | fp stat */
+		if (!strcmp(tok[1], "arm")) { const char *p = tok[2]; fp_narm = 0; fp_count = 0; fp_failed = 0; while (*p && fp_narm < 8) { fp_arm[fp_narm++] = strtoul(p, (char **)&p, 10); if (*p == ',') p++; } }
+		else if (!strcmp(tok[1], "off")) { fp_narm = 0; }
+		else if (!strcmp(tok[1], "reset")) { fp_narm = 0; fp_count = 0; fp_failed = 0; }
+		else if (!strcmp(tok[1], "leaks")) { size_t i; int shown = 0, k; for (i = 0; i < FP_MAX && shown < 12; i++) if (fp_live[i]) { kx_out(" leak%d=%lu", shown, fp_idx[i]); for (k = 0; k < FP_BT && fp_bt[i][k]; k++) kx_out("%c%p", k ? ',' : ':', fp_bt[i][k]); shown++; } }
+		else if (!strcmp(tok[1], "forget")) { memset(fp_live, 0, sizeof fp_live); fp_nlive = 0; }
+		kx_out(" count=%lu live=%lu failed=%lu", fp_count, fp_nlive, fp_failed); return 0; }
+#endif
 	if (!strcmp(c0, "ping")) { kx_out(" pong=1"); return 0; }
 	{ int handled = 0; int rc = kx_net_dispatch(tok, ntok, &handled); if (handled) return rc; }
 	kx_out(" unknown=%s", c0);
